@@ -449,6 +449,37 @@ Proof.
     + intros Hlt. unfold total in Hlt. lia.
 Qed.
 
+(* ---- a page that fails to load ENDS the listing (C05): the failure item is the last thing delivered, no continuation is
+   handed out, so nothing can be asked of a page that does not exist; and every later request delivers nothing *)
+Lemma not_fail_items (l : list E) (r : R) : ~ In (@DLoadFail E R r) (map Item l).
+Proof. intros H. apply in_map_iff in H. destruct H as [x [Hx _]]. discriminate Hx. Qed.
+
+Theorem harvest_fail_ends_fact : forall fuel p amount start empties d k r,
+  harvest load fuel p amount start empties = (d, k) -> In (DLoadFail r) d ->
+  k = None /\ exists d0, d = d0 ++ [DLoadFail r].
+Proof.
+  induction fuel as [|f IH]; intros p amount start empties d k r H Hin; cbn [harvest] in H.
+  - injection H as <- <-. destruct Hin as [Hx|[]]. discriminate Hx.
+  - destruct (Nat.ltb 3 (if Nat.eqb (length (p_items p)) 0 then S empties else 0)).
+    + injection H as <- <-. destruct Hin as [Hx|[]]. discriminate Hx.
+    + destruct (Nat.ltb (amount + start) (length (p_items p))).
+      * injection H as <- <-. exfalso. exact (not_fail_items _ _ Hin).
+      * destruct (p_next p) as [|r0].
+        -- injection H as <- <-. exfalso. exact (not_fail_items _ _ Hin).
+        -- destruct (load r0) as [p'|].
+           ++ destruct (harvest load f p' _ 0 _) as [later k'] eqn:Hh. injection H as <- <-.
+              apply in_app_or in Hin. destruct Hin as [Hin|Hin]; [exfalso; exact (not_fail_items _ _ Hin)|].
+              destruct (IH _ _ _ _ _ _ _ Hh Hin) as [Hk [d0 Hd]]. split; [exact Hk|].
+              eexists.
+              rewrite Hd, app_assoc. reflexivity.
+           ++ injection H as <- <-. split; [reflexivity|].
+              apply in_app_or in Hin. destruct Hin as [Hin|[Hx|[]]]; [exfalso; exact (not_fail_items _ _ Hin)|].
+              injection Hx as ->. eexists. reflexivity.
+Qed.
+
+Theorem requests_after_end_fact : forall amounts, requests load None amounts = ([], None).
+Proof. intros [|a rest]; reflexivity. Qed.
+
 End CF.
 
 Print Assumptions harvest_fuel_mono_fact.
@@ -456,3 +487,5 @@ Print Assumptions harvest_bounded_fact.
 Print Assumptions harvest_cont_fact.
 Print Assumptions harvest_prefix_fact.
 Print Assumptions harvest_exact_fact.
+Print Assumptions harvest_fail_ends_fact.
+Print Assumptions requests_after_end_fact.
